@@ -909,3 +909,16 @@ func inlineNewConsts(p *pkgInfo, known map[string]bool) map[string]int {
 	}
 	return count
 }
+
+// name of fd's first parameter of the given (package-local) type, "" if none
+func paramOfType(fd *ast.FuncDecl, typ string) string {
+	if fd == nil || fd.Type.Params == nil {
+		return ""
+	}
+	for _, f := range fd.Type.Params.List {
+		if exprStr(f.Type) == typ && len(f.Names) > 0 {
+			return f.Names[0].Name
+		}
+	}
+	return ""
+}
